@@ -107,49 +107,52 @@ theorem idx_safe (v : List Char) (i : Nat) (h : i < v.length) : Safe (idx v i) :
   obtain ⟨c, hc⟩ := idx_ok v i h
   rw [hc]; exact Safe.ok _
 
-theorem sepReject_safe (v : List Char) (h : Gen.Iso.lenTimeGe ≤ v.length) : Safe (sepReject v) := by
-  have h16 : 16 ≤ v.length := h
+theorem shortCircuit_safe (j a : Bool) (b : Except Exc Bool) (hb : (if j then a = true else a = false) → Safe b) :
+    Safe (shortCircuit j a b) := by
+  unfold shortCircuit
+  cases j <;> cases a <;> simp only [if_true, if_false, Bool.false_eq_true] <;>
+    first | exact Safe.ok _ | exact hb (by simp)
+
+/-- The dash test reads `value[4]` and `value[7]`: nine characters are enough. -/
+theorem dashReject_safe (v : List Char) (h9 : 9 ≤ v.length) : Safe (dashReject v) := by
+  unfold dashReject
+  refine Safe.bind (idx_safe v _ (by simp only [Gen.Iso.dashA]; omega)) (fun c4 => ?_)
+  exact shortCircuit_safe _ _ _ (fun _ =>
+    Safe.bind (idx_safe v _ (by simp only [Gen.Iso.dashB]; omega)) (fun _ => Safe.ok _))
+
+/-- The separator test is only evaluated under the generated `timeLenTest`, which covers both indices. -/
+theorem sepReject_safe (v : List Char) (h : Gen.Iso.timeLenTest (v.length : Int)) : Safe (sepReject v) := by
+  have h16 : 16 ≤ v.length := by unfold Gen.Iso.timeLenTest at h; omega
   unfold sepReject
   refine Safe.bind (idx_safe v _ (by simp only [Gen.Iso.sepIdx]; omega)) (fun c10 => ?_)
-  have h13 : Safe (idx v Gen.Iso.colonA) := idx_safe v _ (by simp only [Gen.Iso.colonA]; omega)
-  dsimp only
-  split
-  · split
-    · exact Safe.bind h13 (fun _ => Safe.ok _)
-    · exact Safe.ok _
-  · split
-    · exact Safe.ok _
-    · exact Safe.bind h13 (fun _ => Safe.ok _)
+  exact shortCircuit_safe _ _ _ (fun _ =>
+    Safe.bind (idx_safe v _ (by simp only [Gen.Iso.colonA]; omega)) (fun _ => Safe.ok _))
 
+/-- `value[16]` is only read under the generated `secLenTest`, which covers it. -/
 theorem hasSeconds_safe (v : List Char) : Safe (hasSeconds v) := by
   unfold hasSeconds
-  split
-  · rename_i h
-    have h19 : 19 ≤ v.length := h
-    exact Safe.bind (idx_safe v _ (by simp only [Gen.Iso.colonB]; omega)) (fun _ => Safe.ok _)
-  · exact Safe.ok _
+  refine shortCircuit_safe _ _ _ (fun ha => ?_)
+  have h : Gen.Iso.secLenTest (v.length : Int) := of_decide_eq_true ha
+  have h19 : 19 ≤ v.length := by unfold Gen.Iso.secLenTest at h; omega
+  exact Safe.bind (idx_safe v _ (by simp only [Gen.Iso.colonB]; omega)) (fun _ => Safe.ok _)
 
 /-- No `IndexError`: nine characters are enough for every index `shaped` reads unguarded. -/
 theorem shaped_safe (v : List Char) (h9 : 9 ≤ v.length) : Safe (shaped v) := by
   unfold shaped
-  refine Safe.bind (idx_safe v _ (by simp only [Gen.Iso.dashA]; omega)) (fun c4 => ?_)
-  refine Safe.ite (Safe.ok _) ?_
-  refine Safe.bind (idx_safe v _ (by simp only [Gen.Iso.dashB]; omega)) (fun c7 => ?_)
+  refine Safe.bind (dashReject_safe v h9) (fun rej => ?_)
   refine Safe.ite (Safe.ok _) ?_
   refine Safe.ite (fields_safe v _ (by decide)) ?_
-  split
-  · rename_i h16
-    refine Safe.bind (sepReject_safe v h16) (fun rej => ?_)
-    refine Safe.ite (Safe.ok _) ?_
-    refine Safe.bind (hasSeconds_safe v) (fun secs => ?_)
-    refine Safe.ite (fields_safe v _ (by decide)) ?_
-    exact Safe.ite (fields_safe v _ (by decide)) (Safe.ok _)
-  · exact Safe.ok _
+  refine Safe.ite' (fun h16 => ?_) (fun _ => Safe.ok _)
+  refine Safe.bind (sepReject_safe v h16) (fun rej => ?_)
+  refine Safe.ite (Safe.ok _) ?_
+  refine Safe.bind (hasSeconds_safe v) (fun secs => ?_)
+  refine Safe.ite (fields_safe v _ (by decide)) ?_
+  exact Safe.ite (fields_safe v _ (by decide)) (Safe.ok _)
 
 theorem textPath_safe (v : List Char) : Safe (textPath v) := by
   unfold textPath
   refine Safe.ite' (fun hw => ?_) (fun _ => Safe.ok _)
-  have h10 : 10 ≤ v.length := hw.1
+  have h10 : 10 ≤ v.length := by unfold Gen.Iso.lenWindow at hw; omega
   have hv1 : 9 ≤ (if v.getLast? = some Gen.Iso.zChar then v.dropLast else v).length := by
     split
     · simp; omega
@@ -158,9 +161,9 @@ theorem textPath_safe (v : List Char) : Safe (textPath v) := by
   generalize (if v.getLast? = some Gen.Iso.zChar then v.dropLast else v) = v1 at hv1 ⊢
   refine Safe.ite' (fun _ => ?_) (fun _ => shaped_safe _ hv1)
   refine Safe.ite' (fun _ => Safe.ok _) (fun hw2 => ?_)
-  have hw2' := Classical.not_not.mp hw2
-  have : 10 ≤ (List.takeWhile (fun x => x != Gen.Iso.plusChar) v1).length := hw2'.1
-  exact shaped_safe _ (by omega)
+  have : 9 ≤ (List.takeWhile (fun x => x != Gen.Iso.plusChar) v1).length := by
+    unfold Gen.Iso.plusReject at hw2; omega
+  exact shaped_safe _ this
 
 theorem fromTimestamp_safe (n : Int) : Safe (fromTimestamp n) := by
   unfold fromTimestamp
@@ -207,5 +210,6 @@ theorem body_safe (i : Input) : Safe (body i) := by
   | date y m d => exact Safe.ok _
   | datetime dt => exact Safe.ok _
   | other => exact Safe.ok _
+  | time H M S us => exact Safe.ok _
 
 end Iso
